@@ -30,19 +30,43 @@ func (r *zzListReader) Get(k []byte) ([]byte, lib.ErrorI) {
 	return nil, nil
 }
 func (r *zzListReader) Close() lib.ErrorI { return nil }
-func (r *zzListReader) NewIterator(prefix []byte, reverse bool, seek bool) (lib.IteratorI, lib.ErrorI) {
+// The parent's iterator is LAZY like the real VersionedIterator: it keeps the prefix slice it was
+// given and positions itself only on the first Valid() / Next(); a caller that re-uses the memory
+// of that slice in between changes what the iterator sees.
+type zzLazyIter struct {
+	r       *zzListReader
+	prefix  []byte
+	reverse bool
+	ready   bool
+	it      zzIter
+}
+
+func (l *zzLazyIter) init() {
+	if l.ready {
+		return
+	}
+	l.ready = true
 	var items []zzKV
-	for _, e := range r.items {
-		if bytes.HasPrefix(e.k, prefix) {
+	for _, e := range l.r.items {
+		if bytes.HasPrefix(e.k, l.prefix) {
 			items = append(items, e)
 		}
 	}
-	if reverse {
+	if l.reverse {
 		for i, j := 0, len(items)-1; i < j; i, j = i+1, j-1 {
 			items[i], items[j] = items[j], items[i]
 		}
 	}
-	return &zzIter{items: items}, nil
+	l.it = zzIter{items: items}
+}
+func (l *zzLazyIter) Valid() bool   { l.init(); return l.it.Valid() }
+func (l *zzLazyIter) Next()         { l.init(); l.it.Next() }
+func (l *zzLazyIter) Key() []byte   { l.init(); return l.it.Key() }
+func (l *zzLazyIter) Value() []byte { l.init(); return l.it.Value() }
+func (l *zzLazyIter) Close()        {}
+
+func (r *zzListReader) NewIterator(prefix []byte, reverse bool, seek bool) (lib.IteratorI, lib.ErrorI) {
+	return &zzLazyIter{r: r, prefix: prefix, reverse: reverse}, nil
 }
 
 var zzTxnPrefix = []byte("s/")
@@ -110,6 +134,9 @@ func zzCheckReads(tag string, t *Txn, model []zzCell, n int) {
 		if err != nil {
 			return
 		}
+		// a point read between opening an iterator and first using it must not disturb the iterator
+		_, _ = t.Get([]byte("zzzz/some-longer-key-outside-the-prefix"))
+		_, _ = t.Get(zzUniverse[n-1])
 		var want []int
 		for i := 0; i < n; i++ {
 			j := i
@@ -169,4 +196,36 @@ func ZZ_C10_V4_nested_txn() {
 		zzCheckReads("V4.inner-after-discard", inner, outerModel, n)
 	}
 	zzReach("V4.done")
+}
+
+
+// V5: transaction copies (Txn.Copy, used for the mempool's copy of the state): the copy starts with
+// the pending writes of the original and from then on the two are independent - a write, a commit or
+// a discard on one side never changes what the other side reads or iterates.
+//
+//zz:harness unwind=200 maxpaths=400000 timebudget=3000 panic=violation:V5.no-panic param.keys@quick=2 param.keys@thorough=3
+//zz:reach V5.done
+func ZZ_C10_V5_txn_copies_are_independent() {
+	n := zzParam("keys", 2)
+	zzUniverse = [][]byte{[]byte("pa"), []byte("pb"), []byte("qa")}
+	parent, model := zzParentWorld(n)
+	orig := NewTxn(parent, nil, zzTxnPrefix, false, true, true)
+	zzPending("orig", orig, model, n)
+	cp := orig.Copy(parent, nil)
+	copyModel := append([]zzCell{}, model...)
+	zzCheckReads("V5.copy-starts-equal", cp, copyModel, n)
+	// diverge: more writes on either side
+	zzPending("copy.more", cp, copyModel, n)
+	zzPending("orig.more", orig, model, n)
+	zzCheckReads("V5.original-unaffected-by-copy-writes", orig, model, n)
+	zzCheckReads("V5.copy-unaffected-by-original-writes", cp, copyModel, n)
+	// one side is discarded: the other keeps its pending writes
+	if zzBool("discardCopy") {
+		cp.Discard()
+		zzCheckReads("V5.original-survives-copy-discard", orig, model, n)
+	} else {
+		orig.Discard()
+		zzCheckReads("V5.copy-survives-original-discard", cp, copyModel, n)
+	}
+	zzReach("V5.done")
 }
